@@ -47,6 +47,110 @@ def missingField (m : Msg) (entry : String) : Option String :=
     | some l => !occursIn l entry
     | none => false).map fun f => f.1.name
 
+/-! ## a linear-time evaluation of `missingField`, proved EQUAL to it
+
+  `missingField m entry` looks every demanded line up in the whole entry, from its start: on a message of tens of
+  thousands of fields (a legal 64 KB message renders to more than a mebibyte) that is quadratic. The implementation
+  renders the fields in order, so one pass that looks each line up behind the previous one finds them all; when that
+  pass fails (a field missing, or an order the specification does not demand) the specification's own search decides.
+  `missingField_eq_fast` makes the compiled checker use the fast form (`@[csimp]`: a proved equation checked by the
+  kernel, not `implemented_by`; it has to precede `verdict`, which is why the proof lives in this file; it is restated
+  in Props/C20 as `chk_search_is_the_specified_one` for the axiom audit). -/
+
+/-- what is left of `s` behind the first occurrence of `p` -/
+def dropThrough (p : List Char) : List Char → Option (List Char)
+  | [] => if p.isEmpty then some [] else none
+  | c :: s => if p.isPrefixOf (c :: s) then some ((c :: s).drop p.length) else dropThrough p s
+
+/-- is the field's demanded line missing from the entry? (the test `missingField` applies to every field) -/
+def lineMissing (isTemplate : Bool) (entry : String) (f : IE × Value) : Bool :=
+  match demandedLine isTemplate f with
+  | some l => !occursIn l entry
+  | none => false
+
+/-- one pass: each field's line is looked up behind the previous one in what is left of the entry (`rest`); from
+    the first field that is not found there on, the specification's own search over the whole entry decides -/
+def scanFields (isTemplate : Bool) (entry : String) : List (IE × Value) → List Char → Option String
+  | [], _ => none
+  | f :: fs, rest =>
+    match demandedLine isTemplate f with
+    | none => scanFields isTemplate entry fs rest
+    | some l =>
+      match dropThrough l.toList rest with
+      | some rest' => scanFields isTemplate entry fs rest'
+      | none => ((f :: fs).find? (lineMissing isTemplate entry)).map fun f => f.1.name
+
+def missingFieldFast (m : Msg) (entry : String) : Option String :=
+  scanFields m.isTemplate entry m.records.flatten entry.toList
+
+theorem dropThrough_spec (p : List Char) : ∀ (s rest : List Char), dropThrough p s = some rest →
+    infixB p s = true ∧ ∃ pre, s = pre ++ rest := by
+  intro s
+  induction s with
+  | nil =>
+    intro rest h
+    simp only [dropThrough] at h
+    by_cases hp : p.isEmpty = true
+    · simp only [hp, if_true, Option.some.injEq] at h
+      subst h
+      exact ⟨by simp [infixB, hp], [], rfl⟩
+    · simp [hp] at h
+  | cons c s ih =>
+    intro rest h
+    simp only [dropThrough] at h
+    by_cases hp : p.isPrefixOf (c :: s) = true
+    · simp only [hp, if_true, Option.some.injEq] at h
+      refine ⟨by simp [infixB, hp], (c :: s).take p.length, ?_⟩
+      rw [← h]; exact (List.take_append_drop _ _).symm
+    · simp only [hp] at h
+      obtain ⟨hi, pre, hs⟩ := ih rest (by simpa using h)
+      exact ⟨by simp [infixB, hi], c :: pre, by simp [hs]⟩
+
+theorem infixB_of_suffix (p : List Char) : ∀ (pre s : List Char), infixB p s = true → infixB p (pre ++ s) = true := by
+  intro pre
+  induction pre with
+  | nil => intro s h; simpa using h
+  | cons c pre ih => intro s h; simp [infixB, ih s h]
+
+theorem missingField_eq_find (m : Msg) (entry : String) :
+    missingField m entry = (m.records.flatten.find? (lineMissing m.isTemplate entry)).map fun f => f.1.name := rfl
+
+theorem scanFields_eq (isT : Bool) (entry : String) : ∀ (fs : List (IE × Value)) (pre rest : List Char),
+    entry.toList = pre ++ rest →
+    scanFields isT entry fs rest = (fs.find? (lineMissing isT entry)).map fun f => f.1.name := by
+  intro fs
+  induction fs with
+  | nil => intro pre rest _; simp [scanFields]
+  | cons f fs ih =>
+    intro pre rest he
+    simp only [scanFields]
+    cases hd : demandedLine isT f with
+    | none =>
+      have hm : lineMissing isT entry f = false := by simp [lineMissing, hd]
+      simp only [List.find?_cons, hm]
+      exact ih pre rest he
+    | some l =>
+      simp only
+      cases hr : dropThrough l.toList rest with
+      | none => rfl
+      | some rest' =>
+        simp only
+        obtain ⟨hi, pre', hs⟩ := dropThrough_spec l.toList rest rest' hr
+        have hocc : occursIn l entry = true := by
+          simp only [occursIn, he]; exact infixB_of_suffix _ pre rest hi
+        have hm : lineMissing isT entry f = false := by simp [lineMissing, hd, hocc]
+        simp only [List.find?_cons, hm]
+        exact ih (pre ++ pre') rest' (by rw [he, hs, List.append_assoc])
+
+theorem missingFieldFast_eq (m : Msg) (entry : String) : missingFieldFast m entry = missingField m entry := by
+  rw [missingField_eq_find]
+  exact scanFields_eq m.isTemplate entry m.records.flatten [] entry.toList (by simp)
+
+@[csimp] theorem missingField_eq_fast : @missingField = @missingFieldFast := by
+  funext m entry
+  exact (missingFieldFast_eq m entry).symm
+
+
 /-- entries (as shown by the implementation) of the messages that arrived since the last reset,
     newest first -/
 structure Tracker where
